@@ -409,5 +409,6 @@ theorem tie_number_to_dna_other (v L : PV) (fuel : Nat) (h1 : ∀ s, v ≠ .str 
   | arr l => simp [Gen.number_to_dna, Gen.number_to_dna.body, pyTypeIs]
   | set l => simp [Gen.number_to_dna, Gen.number_to_dna.body, pyTypeIs]
   | dict ks vs => simp [Gen.number_to_dna, Gen.number_to_dna.body, pyTypeIs]
+  | rat n d => simp [Gen.number_to_dna, Gen.number_to_dna.body, pyTypeIs]
 
 end Dsw.Tie
